@@ -126,7 +126,7 @@ Proof.
 Qed.
 
 Theorem tile_clipped i :
-  x_inv t = false -> tile t W H s b = Ok i ->
+  x_inv t = false -> tile_filled t W H s b = Ok i ->
   forall c r, 0 <= c < 8 * wib -> 0 <= r < H ->
     px wib (idata i) c r = true -> active W H s b c r = true.
 Proof.
@@ -153,7 +153,7 @@ Proof.
 Qed.
 
 Corollary tile_clip_ok i :
-  x_inv t = false -> tile t W H s b = Ok i -> clip_ok W H s b (idata i) = true.
+  x_inv t = false -> tile_filled t W H s b = Ok i -> clip_ok W H s b (idata i) = true.
 Proof.
   intros Hinv Ht. unfold clip_ok. apply all_cells_spec. intros c r Hc Hr.
   change (wib_of W) with wib in *.
